@@ -168,6 +168,49 @@ def stateAt (ttl : Int) (self : Node) (startT : Int) (evs : List Ev) (t : Int) :
 def peersAt (ttl : Int) (self : Node) (startT : Int) (evs : List Ev) (t : Int) : List Bytes :=
   getPeers self (stateAt ttl self startT evs t)
 
+/-! ### change notification (`checkHash`) and what a registered callback sees
+
+`listen` ends with `checkHash()`: it lists the ids (`SortedKeys`, which cleans up), hashes the list
+and, when the hash differs from the one it stored last time, stores it and runs the callbacks
+registered with `RegisterUpdatedPeersCallback` (the deterministic sharder reloads its peer list
+there).  Nothing else calls `checkHash`: **an expiry is noticed at the next handled message**, not
+when it happens, and `GetPeers` itself never notifies.  The hash (`wyhash` over the id list) is a
+parameter: the model compares the id lists themselves, i.e. it assumes `hashList` is injective on
+the lists that occur and never returns the zero value `p.hash` starts with.
+`view` is what a callback that calls `GetPeers()` saw the last time it ran. -/
+
+structure NSt where
+  st : St
+  lastKeys : Option (List Bytes) := none     -- the id list whose hash `p.hash` holds; `none`: still zero
+  view : Option (List Bytes) := none         -- `GetPeers()` at the most recent callback invocation
+  deriving Repr
+
+/-- `checkHash`, on the state `listen` has just updated -/
+def checkHashN (self : Node) (n : NSt) : NSt :=
+  if n.lastKeys = some (sortedKeys n.st) then n
+  else { n with lastKeys := some (sortedKeys n.st), view := some (getPeers self n.st) }
+
+/-- `listen` with its notification: messages that do not unmarshal return before `checkHash` -/
+def listenN (ttl : Int) (self : Node) (n : NSt) (msg : Bytes) : NSt :=
+  match unmarshal msg with
+  | none => n
+  | some _ => checkHashN self { n with st := listen ttl n.st msg }
+
+def stepEvN (ttl : Int) (self : Node) (n : NSt) : Ev → NSt
+  | .recv _ t m => listenN ttl self { n with st := { n.st with now := t } } m
+  | .query t => { n with st := cleanup { n.st with now := t } }
+
+/-- `Start` does not call `checkHash`: no callback has run, the stored hash is zero -/
+def startN (ttl : Int) (self : Node) (t : Int) : NSt := { st := start ttl self t }
+
+def runEvsN (ttl : Int) (self : Node) (startT : Int) (evs : List Ev) : NSt :=
+  evs.foldl (stepEvN ttl self) (startN ttl self startT)
+
+/-- the message is one `listen` acts on -/
+def Ev.handled : Ev → Bool
+  | .recv _ _ m => (unmarshal m).isSome
+  | .query _ => false
+
 /-- delivery took between 0 and `d` -/
 def Ev.DelayOK (d : Int) : Ev → Prop
   | .recv s t _ => s ≤ t ∧ t ≤ s + d
